@@ -245,7 +245,10 @@ func (c *fnCtx) modItemComps(ci calleeInfo, item string) []string {
 	if strings.HasPrefix(item, "g_") {
 		return nil
 	}
-	if strings.HasPrefix(item, "$mem:") {
+	if strings.HasPrefix(item, "$mem:") || strings.HasPrefix(item, "$ghost:") {
+		if strings.HasPrefix(item, "$ghost:frz") {
+			c.g.compKT[item] = compKT{KBool, nil}
+		}
 		return []string{item}
 	}
 	if strings.HasPrefix(item, "*") {
@@ -556,7 +559,7 @@ func (c *fnCtx) havocItem(st *State, env *Env, ci calleeInfo, item string) {
 		}
 	}
 	// precise: "p.f" with p a pointer parameter and f a scalar/slice field
-	if !strings.HasSuffix(item, "[*]") && !strings.HasPrefix(item, "$mem:") {
+	if !strings.HasSuffix(item, "[*]") && !strings.HasPrefix(item, "$mem:") && !strings.HasPrefix(item, "$ghost:") {
 		parts := strings.Split(item, ".")
 		if root, ok := env.vars[parts[0]]; ok && len(parts) >= 2 {
 			locs, ok2 := env.selectorLocs(root, parts[1:])
